@@ -388,7 +388,10 @@ class ProgGen:
                 tops.append(i + 1)
         pos = rng.choice(tops)
         if kind == 'undef_ref':
-            main.insert(pos, ['data', 2, [('lab', rng.choice(['nosuch', '.nolocal', '_nofile']))]])
+            lab = ('lab', rng.choice(['nosuch', '.nolocal', '_nofile']))
+            main.insert(pos, rng.choice([['data', 2, [lab]], ['data', 2, [lab]], ['data', 1, [num(1), lab]], ['fill', num(0), lab],
+                                         ['fill', num(2), lab], ['fill', lab, num(0)], ['zero', lab], ['zerountil', lab],
+                                         ['instr', 'jmp', [lab]], ['org', lab, None], ['const', 'KUNRES', lab]]))
         elif kind == 'register_ref':
             main.insert(pos, ['data', 1, [('bin', '+', ('lab', rng.choice(['a', 'sp'])), ('num', '1'))]])
         elif kind == 'local_no_region':
